@@ -1,5 +1,5 @@
 (** Executable model of kvs/redis/redis.go (the Redis kvs.Storage client), as
-    the code is written now (after fixes 100dccd, b59c3d7, 3538561).
+    the code is written now (after fixes 100dccd, b59c3d7, 3538561, 5042a3c).
 
     Every method is the sequence of server commands it issues, written as a
     resumption [prog]: [Cmd c k] sends the command [c now] (the TTL inside is
@@ -119,12 +119,19 @@ Fixpoint zip_recs (ks : list key) (vs : list (option payload)) : list (option or
   | [], _ => []
   end.
 
-Definition rk_getmany (ks : list key) : prog :=
+Definition mget_prog (ks : list key) : prog :=
   Cmd (fun _ => MGET (map rKey ks)) (fun r =>
     match r with
     | RVals vs => Ret (ORecs (zip_recs ks vs))
-    | _ => Ret (ORecs (zip_recs ks []))
+    | _ => Ret OOther           (* checkErr passes any other error through *)
     end).
+
+(* if len(keys) == 0 { return []*kvs.Record{}, nil }   (fix 5042a3c: MGET needs at least one key) *)
+Definition rk_getmany (ks : list key) : prog :=
+  match ks with
+  | [] => Ret (ORecs [])
+  | _ => mget_prog ks
+  end.
 
 (* CasByVersion: for { WATCH key; GET key: nil -> ErrNotExist; version differs -> ErrConflict;
    Version = NewID(); MULTI SET EXEC; aborted -> again }; the connection is un-watched when
